@@ -8,6 +8,7 @@
 
 mod valloc;
 mod ssm;
+mod net;
 
 use laythe_env::{
   env::{Env, EnvImpl},
@@ -572,8 +573,22 @@ fn serve(horizon_ms: u64) {
         let h = gu64(&case, "horizon_ms");
         let _ = h;
         CASE_START_MS.store(now_ms(&t0), Ordering::SeqCst);
-        let (res, panicked) = if case.get("cmd").and_then(|c| c.as_str()) == Some("windows") {
+        let cmd = case.get("cmd").and_then(|c| c.as_str()).unwrap_or("");
+        let (res, panicked) = if cmd == "windows" {
           (ssm::windows_cmd(&case), false)
+        } else if cmd == "netmodel" {
+          (net::model_stats(&case), false)
+        } else if cmd == "net" {
+          match net::parse(&case) {
+            Some((n, wrap)) => {
+              let mut c2 = case.clone();
+              c2["src"] = json!(n.program(wrap));
+              let (mut res, panicked) = run_case(&c2);
+              net::finish(&n, &mut res);
+              (res, panicked)
+            },
+            None => (json!({"class": "bad_case", "err": "bad net"}), false),
+          }
         } else {
           run_case(&case)
         };
